@@ -3,7 +3,7 @@ from checks import krill_common as kc
 
 PID = "C03"
 LEVEL = "model_checking"
-THEMES = "life,roll,multi,mix".split(",")
+THEMES = "life,roll,multi,mix,foreign".split(",")
 NEEDED = "Settled".split(",")
 
 RULE = (
@@ -63,9 +63,10 @@ def run(tier, seed):
         mc_cfgs=(['MC_Krill_q_roll.cfg', 'MC_Krill_q_life.cfg'] if tier == "quick" else ['MC_Krill_q_roll.cfg', 'MC_Krill_q_life.cfg', 'MC_Krill_roll.cfg', 'MC_Krill_life.cfg']),
         directed=(DIRECTED + kc.MULTI_DIRECTED
                   + kc.clause("child-removed-suspended-deleted",
-                              "roa-replaced", "shrink-to-nothing")
+                              "roa-replaced", "shrink-to-nothing",
+                              "foreign-limit-shrink")
                   + kc.TA_DIRECTED[:1]),
-        theme_nums={"multi": (6, 80), "mix": (6, 60)})
+        theme_nums={"multi": (6, 80), "mix": (6, 60), "foreign": (4, 60)})
 
 
 def replay(path, seed):
